@@ -40,6 +40,10 @@ func genLoopCase(t *rapid.T, prop string) *Case {
 	}
 	sub := &ir.Program{Name: "body.yaml", Item: true, SrcPrefix: "body.yaml/", Subs: map[string]*ir.Program{}}
 	b0 := &ir.Step{ID: "b0", Kind: "plugin", In: []ir.Field{ir.F("a", ir.Ref("input", "v")), ir.F("s", ir.Ref("input", "tag")), ir.F("mode", ir.Ref("input", "mode")), ir.F("dur", ir.Ref("input", "dur"))}}
+	if rapid.IntRange(0, 2).Draw(t, "item_deploy_expr") == 0 {
+		// a deploy-time expression over the item: every item run is deployed with its own value
+		b0.Deploy = &ir.Deploy{Latency: ir.Ref("input", "dur")}
+	}
 	sub.Steps = append(sub.Steps, b0)
 	last := "b0"
 	if rapid.IntRange(0, 2).Draw(t, "second_body_step") == 0 {
@@ -166,6 +170,27 @@ func OracleLoop(prop string, v *View) []Violation {
 				out = append(out, viol(prop, "item-input", "", "the loop body ran %d times with input (a|s|mode)=%s but only %d items look like that (items: %s)", n, k, want[k], harness.JSON(sf.Items)))
 			}
 		}
+		// ... and is deployed with the value its own deploy-time expression gives
+		if b0 := v.C.Program.Subs["body.yaml"].Step("b0"); b0 != nil && b0.Deploy != nil && b0.Deploy.Latency != nil {
+			wantLat, gotLat := map[int64]int{}, map[int64]int{}
+			for _, it := range sf.Items {
+				if d, ok := toInt(it.(map[string]any)["dur"]); ok {
+					wantLat[d]++
+				}
+			}
+			for _, e := range v.R.Events {
+				if e.Src == bodySrc && !e.Probe && e.Kind == world.EvDeployBegin {
+					if d, ok := toInt(e.Data["latency_ms"]); ok {
+						gotLat[d]++
+					}
+				}
+			}
+			for d, n := range gotLat {
+				if n > wantLat[d] {
+					out = append(out, viol(prop, "item-deploy-value", "", "the loop body was deployed %d times with latency_ms=%d but only %d items give that value (items: %s)", n, d, wantLat[d], harness.JSON(sf.Items)))
+				}
+			}
+		}
 		if v.R.Outcome == "completed" && v.C0 != nil && v.C0.Err == "" && (v.C0.OutputID == "success" || v.C0.OutputID == "failed") {
 			for k, n := range want {
 				if got[k] < n {
@@ -231,4 +256,18 @@ func loopShape(v *View) string {
 		}
 	}
 	return "items: " + strings.Join(keys(kinds), ", ")
+}
+
+func toInt(v any) (int64, bool) {
+	switch x := v.(type) {
+	case int64:
+		return x, true
+	case int:
+		return int64(x), true
+	case uint64:
+		return int64(x), true
+	case float64:
+		return int64(x), x == float64(int64(x))
+	}
+	return 0, false
 }
